@@ -3,11 +3,14 @@
    N / positive / nat stay extracted inductives.  No Extract Constant of our own. *)
 Require Extraction.
 Require Import ExtrOcamlBasic.
-From FP Require Import Model.Base Model.ItsWords Spec.WordLayout.
+From FP Require Import Model.Base Model.ItsWords Model.ItsFsm Spec.WordLayout Spec.Diagram Spec.DiagramAbs.
 Extraction Language OCaml.
 Set Extraction KeepSingleton.
 Extraction "model.ml"
   Model.ItsWords.ihw_sanity Model.ItsWords.tdh_sanity Model.ItsWords.tdt_sanity
   Model.ItsWords.ddw0_sanity Model.ItsWords.data_word_codes
   Spec.WordLayout.ihw_okb Spec.WordLayout.tdh_okb Spec.WordLayout.tdt_okb Spec.WordLayout.ddw0_okb
-  Spec.WordLayout.data_word_verdict Spec.WordLayout.valid_data_id.
+  Spec.WordLayout.data_word_verdict Spec.WordLayout.valid_data_id
+  Model.ItsFsm.advance Model.ItsFsm.fstate_id Model.ItsFsm.fres_id Model.ItsFsm.all_fstates
+  Model.ItsWords.sl_tdh_no_data Model.ItsWords.sl_tdt_packet_done
+  Spec.Diagram.dstep Spec.DiagramAbs.abs Spec.DiagramAbs.dstate_id Spec.DiagramAbs.dverdict_id.
